@@ -11,6 +11,7 @@ import (
 	"io"
 	"net"
 	"runtime"
+	"strconv"
 	"strings"
 	"sync"
 	"sync/atomic"
@@ -64,7 +65,7 @@ type step struct {
 
 func (s step) String() string {
 	switch s.Op {
-	case "W", "P", "Bsid":
+	case "W", "P", "Bsid", "Bbounce":
 		return s.Op + "(" + s.B.String() + ")"
 	case "WPC":
 		return "WPC(Write+Flush " + s.B.String() + " || the peer closes the stream before it acknowledges the packet)"
@@ -233,7 +234,7 @@ func genScenario(t *rapid.T) *scenario {
 				ops = append(ops, "W", "W", "W", "WL", "F")
 			}
 			if dir != "send" {
-				ops = append(ops, "P", "P", "P", "Bsid", "Bseq", "Bb64", "SRB")
+				ops = append(ops, "P", "P", "P", "Bsid", "Bseq", "Bb64", "Bbounce", "SRB")
 				if !pending {
 					ops = append(ops, "R", "R")
 				}
@@ -279,6 +280,11 @@ func genScenario(t *rapid.T) *scenario {
 		case "Bsid", "Bseq":
 			st.B = pk("bp")
 			st.K = rapid.SampledFrom([]int{1, 2, 65535, 32768, 7, 256, 65534}).Draw(t, "delta")
+		case "Bbounce":
+			st.B = pk("bn")
+			if st.B.N == 0 {
+				st.B = genBlob(t, "bn1", 3)
+			}
 		case "Bb64":
 			st.B = genBlob(t, "bb", 3*rapid.IntRange(0, 5).Draw(t, "bbq"))
 			st.K = rapid.IntRange(0, len(b64Variants)-1).Draw(t, "bbv")
@@ -1033,6 +1039,32 @@ func (r *runner) badPacket(st step) {
 	}
 }
 
+// bounce: a message of type error that echoes a data packet (what a server
+// returns for a packet of ours it could not deliver), with the sid of the
+// open stream and exactly the sequence number the receiver expects next.  It
+// is an error report, not data of the peer: the stream is untouched.
+func (r *runner) bounce(st step) {
+	if r.closed != "" {
+		return
+	}
+	from := r.p.count()
+	atomic.AddInt32(&r.stim, 1)
+	id, sy := r.id("bn"), r.id("sy")
+	text := b64(st.B.bytes())
+	r.tracef("peer: bounced data message (type=error) id=%s sid=%q seq=%d text=%q", id, r.sid, r.expSeq, clip(text, 48))
+	r.sv.Feed(`<message type="error" id="` + id + `" from="` + peerJID + `" to="` + localJID + `"><data xmlns="` + nsIBB + `" seq="` + strconv.Itoa(r.expSeq) + `" sid="` + escAttr(r.sid) + `">` + text + `</data><error type="cancel"><service-unavailable xmlns="urn:ietf:params:xml:ns:xmpp-stanzas"/></error></message>` + syncIQ(sy))
+	e, _ := r.p.waitEvent(from, func(e *event) bool { return e.kind == "error" && e.id == sy }, opTimeout)
+	if e == nil {
+		r.checkPanics()
+		r.sessionDead("a bounced data message")
+		r.inconclusive("timeout waiting for the serve loop to get past a bounced data message")
+	}
+	r.class("bad:bounce")
+	if r.nGood > 0 {
+		r.nBadMid++
+	}
+}
+
 func (r *runner) libClose() {
 	conn := r.conn
 	err := await(r, spawn(r, func() error { return conn.Close() }), "Close", "")
@@ -1116,6 +1148,9 @@ func (r *runner) step(st step) {
 		r.settle(true)
 	case "Bsid", "Bseq", "Bb64":
 		r.badPacket(st)
+		r.settle(true)
+	case "Bbounce":
+		r.bounce(st)
 		r.settle(true)
 	case "SRB":
 		if r.closed != "" {
